@@ -542,8 +542,8 @@ impl Printer {
             }
             T::Try(f, c) => {
                 out.push_str("try ");
-                if matches!(**f, T::Try(..)) {
-                    // `try try a catch b` would attach the catch to the inner try
+                if c.is_some() && ends_in_open_try(f) || matches!(**f, T::Try(..)) {
+                    // `try try a catch b` and `try -try a catch b` would attach the catch to the inner try
                     self.paren(f, out)
                 } else {
                     self.atom(f, out)
@@ -631,6 +631,17 @@ impl Printer {
                 }
             }
         }
+    }
+}
+
+/// printed as an atom, does the term end in a `try` that has no `catch` yet (so that a following
+/// `catch` would be taken by it)?
+fn ends_in_open_try(t: &T) -> bool {
+    match t {
+        T::Try(_, None) => true,
+        T::Try(_, Some(c)) => ends_in_open_try(c),
+        T::Neg(f) => ends_in_open_try(f),
+        _ => false,
     }
 }
 
